@@ -40,9 +40,10 @@ CLAIMED["C03"] = dict(
          "pipeline of 0..3 steps with non-commuting exact marker kernels, symbolic per-step inv/omit_fwd/omit_inv "
          "(all 2^(3N) placements), symbolic per-step success counts and all operand bit patterns equals the fold "
          "written from the property text, both directions, incl. the pipeline itself inverted.",
-    note=TRUST + "M-BTREE for the flag sets; steps are harness-built Op values (struct literals), so the text front "
-         "end (placement of modifiers in definition text, macros) is outside this check; see Engine S obligations "
-         "when present.",
+    note=TRUST + "M-BTREE for the flag sets; steps are harness-built Op values (struct literals). Engine S adds one "
+         "obligation on the text front end: the macro-inversion predicate of Op::op (read from src/op/mod.rs) agrees "
+         "with 'inv or inv=true is one of the words of the step' for all normalized macro steps of <= 12 units. "
+         "Otherwise the placement of modifiers in definition text and macro bodies is outside this check.",
     technique="Kani/CBMC bounded model checking (SAT): pipeline fold vs reference fold over symbolic flags",
     design="4 (C03)")
 
@@ -86,6 +87,21 @@ CLAIMED["C08"] = dict(
          "sub-grid selection and operator sign/unit conventions until their harnesses are listed in the evidence.",
     technique="Kani/CBMC bounded model checking (SAT): inductive representation invariant + exact-geometry interpolation oracle",
     design="4 (C08)")
+
+CLAIMED["C16"] = dict(
+    text="Engine S: the method chain of Tokenize::normalize is read from the current source and translated into a "
+         "bounded bit-vector encoding; z3 decides, for all strings of up to 7 (quick) / 9 (thorough) code units over "
+         "{a,b,space,newline,=,:,|,comma,$} satisfying the well-formedness side conditions, that normalisation is "
+         "idempotent, insensitive to an extra blank/newline next to a separator or at either end, and to a "
+         "continuation colon after a line break. Witnesses are replayed through the native Tokenize methods.",
+    note="Trusted: the definitional models of trim/trim_matches/replace/split_whitespace+join in lib/engine_s.py "
+         "(validated on every run against the native function on the repo's tokenizer test literals), z3 (cvc5 "
+         "cross-check in the thorough tier). Bounded: string length and alphabet as stated; longer texts, other code "
+         "points, </> sugar (tenfold expansion) and subscript digits are outside. Outside as well: split_into_steps, "
+         "split_into_parameters, ParsedParameters::new typing/defaults and parse_sexagesimal (String/loop code that "
+         "neither Kani nor a method-chain translator reaches within the cap).",
+    technique="source->SMT translation of the str method chain, QF_BV queries decided by z3 (cvc5 cross-check)",
+    design="1.3, 4 (C16)", engine="S")
 
 NA = {
     "C05": "differential identities over compositions of libm functions on the ellipsoid: no precise libm in CBMC, no "
